@@ -26,8 +26,19 @@ def run(ctx):
            extra=["-dump", "dot,actionlabels", dot])
     g = walk.load(dot)
     os.remove(dot)
-    ws, cov, tot = walk.edge_cover(g, maxlen=ctx.pick(40, 60), seed=ctx.seed, limit=ctx.pick(150, None))
+    ws, cov, tot = walk.edge_cover(g, maxlen=ctx.pick(40, 60), seed=ctx.seed, limit=ctx.pick(110, None))
     runs = []
+    # every sequence of 3 (thorough 4) edits over the edits that touch the one field living both in the defaults
+    # and in a path (a value pinned to what it inherits, then the default moves ...): ApiEditsSeq.tla
+    with open(os.path.join(d, "ApiEditsSeq.cfg"), "w") as fh:
+        fh.write('SPECIFICATION FSpec\nCONSTANTS\n  Names = {"p1", "p2"}\n  MaxSteps = %d\n  FocusName = "p1"\n'
+                 'INVARIANT EmitRuns\nCHECK_DEADLOCK FALSE\n' % ctx.pick(3, 4))
+    rs = vf.mc(ctx, "ApiEditsSeq", "ApiEditsSeq.cfg", workers=4, timeout=900)
+    for x in rs.tagged("RUN"):
+        runs.append({"run": len(runs), "src": "seq", "ops": x["ops"]})
+    if len(runs) < 1000:
+        raise vf.Infra("ApiEditsSeq produced only %d sequences" % len(runs))
+    ctx.set("focused_sequences", len(runs))
     for w in ws:
         ops = []
         for lab, _ in w:
